@@ -1,3 +1,430 @@
 import NdnVerif.Driver.Common
--- stub: replaced by the C19 model driver
-def main : IO Unit := IO.println "DONE lines=0 histories=0 diffs=0 specs=0 skipped=0"
+import NdnVerif.C19.Model
+import NdnVerif.C19.Spec
+open Ndn Ndn.Driver Ndn.C19
+
+namespace C19Drv
+
+def numApp : Nat := 7
+
+def validId (n id : Nat) : Bool := id < n || (100 ≤ id && id < 100 + numApp)
+
+/-! ### installer histories -/
+
+structure FibSt where
+  n : Nat
+  keys : List Nat
+  t : Tables
+  fib : Fib
+  /-- spec side: replay of every command the implementation emitted in this history -/
+  routes : Spec.Routes := []
+
+def idxOfKey (keys : List Nat) (k : Nat) : Option Nat :=
+  let i := keys.idxOf k
+  if i < keys.length then some i else none
+
+def optStr : Option Nat → String
+  | some i => toString i
+  | none => "-"
+
+def dashIfEmpty (s : String) : String := if s.isEmpty then "-" else s
+
+def cmdKey : Cmd → Nat × Nat
+  | .register n f _ => (n, f)
+  | .unregister n f => (n, f)
+
+def cmdText : Cmd → String
+  | .register n f c => s!"R:{n}:{f}:{c}"
+  | .unregister n f => s!"U:{n}:{f}"
+
+def leKey (a b : Nat × Nat) : Bool := a.1 < b.1 || (a.1 == b.1 && a.2 ≤ b.2)
+
+def dumpCmds (cmds : List Cmd) : String :=
+  dashIfEmpty (",".intercalate ((cmds.mergeSort fun a b => leKey (cmdKey a) (cmdKey b)).map cmdText))
+
+def dumpTables (s : FibSt) : String :=
+  let rib := s.t.rib.reachable.map fun e =>
+    ((idxOfKey s.keys e.dest).getD 0,
+      s!"{optStr (idxOfKey s.keys e.dest)}:{optStr (idxOfKey s.keys e.best.nh1)}:{e.best.low1}:{optStr (idxOfKey s.keys e.best.nh2)}:{e.best.low2}")
+  let rib := (rib.mergeSort fun a b => a.1 ≤ b.1).map (·.2)
+  let nbr := s.t.nbrs.map fun (k, nb) => ((idxOfKey s.keys k).getD 0, s!"{optStr (idxOfKey s.keys k)}:{nb.face}")
+  let nbr := (nbr.mergeSort fun a b => a.1 ≤ b.1).map (·.2)
+  let pfx := (List.range s.n).filterMap fun x =>
+    let ids := (pget s.t.pfx (s.keys.getD x 0)).getD []
+    if ids.isEmpty then none
+    else some s!"{x}:{".".intercalate ((Spec.sortNat ids).map toString)}"
+  s!"rib={dashIfEmpty (",".intercalate rib)} nbr={dashIfEmpty (",".intercalate nbr)} pfx={dashIfEmpty (",".intercalate pfx)}"
+
+def dumpFib (cmds : List Cmd) (s : FibSt) : String := s!"cmds={dumpCmds cmds} {dumpTables s}"
+
+def prefixOfKeys (keys : List Nat) (k : Nat) : Nat := (idxOfKey keys k).getD 999
+
+def runFibUpdate (s : FibSt) : FibSt × List Cmd :=
+  let (fib', cmds) := fibUpdate (prefixOfKeys s.keys) s.t s.fib
+  ({ s with fib := fib' }, cmds)
+
+def parseAdvItems (n : Nat) (keys : List Nat) (txt : String) : Option (List C18.AdvEntry) :=
+  if txt == "-" then some [] else
+  (txt.splitOn ";").foldlM (fun acc item =>
+    match item.splitOn ":" with
+    | [d, nh, c, o] => do
+      let d ← d.toNat?; let nh ← nh.toNat?; let c ← c.toNat?; let o ← o.toNat?
+      if d < n && nh < n then
+        pure (acc ++ [{ dest := keys.getD d 0, nh := keys.getD nh 0, cost := c, other := o : C18.AdvEntry }])
+      else pure acc
+    | _ => none) []
+
+def parseIds (n : Nat) (txt : String) : List Nat :=
+  if txt == "-" then [] else (txt.splitOn ".").filterMap fun f =>
+    match f.toNat? with
+    | some id => if validId n id then some id else none
+    | none => none
+
+/-! spec side of the installer -/
+
+structure TablesObs where
+  cmds : List Cmd
+  badCmds : List String
+  rib : List Spec.RibObs
+  nbr : List (Nat × Nat)
+  pfx : List (Nat × List Nat)
+
+def noneIdx : Nat := 1000000
+
+def parseField (got : String) (name : String) : Option String :=
+  (got.splitOn " ").findSome? fun f => if f.startsWith (name ++ "=") then some (f.drop (name.length + 1)).toString else none
+
+def parseList (txt : String) (sep : String) : List String := if txt == "-" then [] else txt.splitOn sep
+
+def natOr (s : String) (d : Nat) : Nat := s.toNat?.getD d
+
+def parseObs (got : String) : Option TablesObs := do
+  let cmdsT ← parseField got "cmds"
+  let ribT ← parseField got "rib"
+  let nbrT ← parseField got "nbr"
+  let pfxT ← parseField got "pfx"
+  let items := parseList cmdsT ","
+  let cmds := items.filterMap fun it =>
+    match it.splitOn ":" with
+    | ["R", n, f, c] => do pure (Cmd.register (← n.toNat?) (← f.toNat?) (← c.toNat?))
+    | ["U", n, f] => do pure (Cmd.unregister (← n.toNat?) (← f.toNat?))
+    | _ => none
+  let bad := items.filter fun it => !(it.startsWith "R:" || it.startsWith "U:")
+  let rib ← (parseList ribT ",").mapM fun it =>
+    match it.splitOn ":" with
+    | [d, nh1, c1, nh2, c2] => do
+      pure { dest := natOr d noneIdx, nh1 := natOr nh1 noneIdx, c1 := ← c1.toNat?, nh2 := natOr nh2 noneIdx, c2 := ← c2.toNat? : Spec.RibObs }
+    | _ => none
+  let nbr ← (parseList nbrT ",").mapM fun it =>
+    match it.splitOn ":" with
+    | [w, f] => do pure (natOr w noneIdx, ← f.toNat?)
+    | _ => none
+  let pfx ← (parseList pfxT ",").mapM fun it =>
+    match it.splitOn ":" with
+    | [x, ids] => do pure (← x.toNat?, (ids.splitOn ".").filterMap String.toNat?)
+    | _ => none
+  pure { cmds := cmds, badCmds := bad, rib := rib, nbr := nbr, pfx := pfx }
+
+def lookupNat (l : List (Nat × Nat)) (k : Nat) : Option Nat := (l.find? (·.1 == k)).map (·.2)
+
+def showRoutes (r : Spec.Routes) : String :=
+  " ".intercalate (r.map fun ((n, f), c) => s!"{n}@{f}={c}")
+
+/-- evaluate clause (A) on the implementation's output; returns the new replayed table and failures -/
+def specFib (routes : Spec.Routes) (got : String) : Spec.Routes × List SpecFail :=
+  if isCrash got then (routes, [⟨"no-panic", "crash", got⟩]) else
+  match parseObs got with
+  | none => (routes, [⟨"routes-mirror-tables", "unparsable", s!"unparsable output {got}"⟩])
+  | some o =>
+    let routes' := Spec.replay routes o.cmds
+    let cands := Spec.candidates 0 id (lookupNat o.nbr) (fun x => ((o.pfx.find? (·.1 == x)).map (·.2)).getD []) o.rib
+    let want := Spec.prescribed cands
+    let have_ := Spec.canon routes'
+    let stale := have_.filter fun (k, _) => (Spec.rget want k).isNone
+    let missing := want.filter fun (k, _) => (Spec.rget have_ k).isNone
+    let wrong := want.filter fun (k, c) => match Spec.rget have_ k with | some c' => c' != c | none => false
+    let fails :=
+      (if stale.isEmpty then [] else
+        [⟨"routes-mirror-tables", "stale-route", s!"registered but not prescribed (name@face=cost): {showRoutes stale}; registered={showRoutes have_}; prescribed={showRoutes want}"⟩]) ++
+      (if missing.isEmpty then [] else
+        [⟨"routes-mirror-tables", "missing-route", s!"prescribed but not registered: {showRoutes missing}; registered={showRoutes have_}; prescribed={showRoutes want}"⟩]) ++
+      (if wrong.isEmpty then [] else
+        [⟨"routes-mirror-tables", "wrong-cost", s!"registered at another cost than the lowest prescribed: {showRoutes wrong}; registered={showRoutes have_}"⟩]) ++
+      (if o.cmds.any (fun c => (cmdKey c).2 == 0) then
+        [⟨"routes-mirror-tables", "face-zero", s!"a command names face 0 (next hop without neighbour state): {got}"⟩] else []) ++
+      (if o.badCmds.isEmpty then [] else
+        [⟨"routes-mirror-tables", "foreign-command", s!"command outside the prescription domain: {o.badCmds}"⟩])
+    (routes', fails)
+
+/-! ### prefix-log histories -/
+
+structure LogSt where
+  k : Nat
+  pub : Pub
+  peers : List Peer
+  -- spec side (from the ops and the implementation's outputs only)
+  sSeq : Nat
+  sSet : List Nat := []
+  hist : List (Nat × List Nat) := []
+
+def idsText (l : List Nat) : String := dashIfEmpty (".".intercalate ((Spec.sortNat l).map toString))
+
+def dumpPub (p : Pub) : String := s!"seq={p.seq.toNat} set={idsText p.set}"
+
+def wantText : Option Want → String
+  | none => "-"
+  | some .snap => "snap"
+  | some (.seq n) => s!"seq:{n.toNat}"
+
+def dumpPeer (q : Peer) : String :=
+  s!"known={q.known.toNat} latest={q.latest.toNat} fetching={if q.fetching then 1 else 0} set={idsText q.set} pend={wantText q.pend}"
+
+def setPeer (l : List Peer) (i : Nat) (q : Peer) : List Peer := l.set i q
+
+def toggleM (p : Pub) (id : Nat) : Pub := if p.set.contains id then p.withdraw id else p.announce id
+
+def burstM : Nat → Nat → Pub → Pub
+  | 0, _, p => p
+  | m + 1, i, p => burstM m (i + 1) (toggleM p (100 + (i * 3) % numApp))
+
+def drainM : Nat → Peer → Pub → Nat → Peer × Nat
+  | 0, q, _, steps => (q, steps)
+  | fuel + 1, q, p, steps =>
+    match q.deliver p with
+    | some (q', true) => drainM fuel q' p (steps + 1)
+    | _ => (q, steps)
+
+/-- spec: the publisher's announced set by the ops -/
+def specPubOp (s : LogSt) (op : Spec.PubOp) : LogSt :=
+  let (set', changed) := Spec.announce s.sSet op
+  if changed then { s with sSet := set', sSeq := s.sSeq + 1, hist := (s.sSeq + 1, Spec.sortNat set') :: s.hist }
+  else s
+
+def specBurst : Nat → Nat → LogSt → LogSt
+  | 0, _, s => s
+  | m + 1, i, s =>
+    let id := 100 + (i * 3) % numApp
+    specBurst m (i + 1) (specPubOp s (if s.sSet.contains id then .withdraw id else .announce id))
+
+def parseIdsDot (t : String) : List Nat := if t == "-" then [] else (t.splitOn ".").filterMap String.toNat?
+
+def specPubCheck (s : LogSt) (got : String) : List SpecFail :=
+  if isCrash got then [⟨"no-panic", "crash", got⟩] else
+  match parseField got "seq", parseField got "set" with
+  | some sq, some st =>
+    (if sq.toNat? == some s.sSeq then [] else
+      [⟨"log-sequence", "seq", s!"publisher is at sequence {sq}, {s.sSeq} expected after the published operations"⟩]) ++
+    (if parseIdsDot st == Spec.sortNat s.sSet then [] else
+      [⟨"log-replay", "publisher-set", s!"publisher holds {st}, announced set is {idsText s.sSet}"⟩])
+  | _, _ => [⟨"log-replay", "unparsable", got⟩]
+
+def specPeerCheck (s : LogSt) (b : Nat) (got : String) : List SpecFail :=
+  if isCrash got then [⟨"no-panic", "crash", got⟩] else
+  match parseField got "known", parseField got "latest", parseField got "fetching", parseField got "set", parseField got "pend" with
+  | some kn, some la, some fe, some st, some pe =>
+    let known := kn.toNat?.getD 0
+    let set := parseIdsDot st
+    let replayFail :=
+      if known == 0 then (if set.isEmpty then [] else
+        [⟨"log-replay", "peer-set", s!"peer {b} has applied nothing but holds {st}"⟩])
+      else match s.hist.find? (·.1 == known) with
+        | some (_, want) => if set == want then [] else
+            [⟨"log-replay", "peer-set", s!"peer {b} at sequence {known} holds {st}, the publisher's set at that sequence was {idsText want}"⟩]
+        | none => [⟨"log-replay", "peer-seq", s!"peer {b} is at sequence {known}, which the publisher never published"⟩]
+    let completeFail :=
+      if pe == "-" && fe == "0" && la.toNat? == some s.sSeq && known != s.sSeq then
+        [⟨"log-complete", "behind", s!"peer {b} knows the latest sequence {s.sSeq}, has nothing outstanding, but stays at {known}"⟩]
+      else []
+    replayFail ++ completeFail
+  | _, _, _, _, _ => [⟨"log-replay", "unparsable", got⟩]
+
+inductive St where
+  | none
+  | fib (s : FibSt)
+  | log (s : LogSt)
+
+def stripNoReply (got : String) : String :=
+  if got.startsWith "noreply " then (got.drop 8).toString else got
+
+def stepFib (s : FibSt) (f : List String) (got : String) : StepResult St :=
+  -- spec side first (independent of the model)
+  let (routes', fails) := if got == "skip" then (s.routes, []) else specFib s.routes got
+  let s := { s with routes := routes' }
+  let skip : StepResult St := { st := .fib s, expected := some "skip", spec := fails }
+  let keyOf (w : Nat) := s.keys.getD w 0
+  let finish (s' : FibSt) (cmds : List Cmd) (cov : List String) : StepResult St :=
+    { st := .fib s', expected := some (dumpFib cmds s'), spec := fails,
+      cov := cov ++ (if cmds.any (fun c => match c with | .register .. => true | _ => false) then ["cmd-register"] else []) ++
+                    (if cmds.any (fun c => match c with | .unregister .. => true | _ => false) then ["cmd-unregister"] else []) ++
+                    (if s'.fib.prefixes.any (fun (_, es) => es.length ≥ 3) then ["multi-homed"] else []),
+      nontrivial := !s'.fib.prefixes.isEmpty }
+  match f with
+  | ["ping", w, face, act] =>
+    match w.toNat?, face.toNat? with
+    | some w, some face =>
+      if !(1 ≤ w && w < s.n) || face == 0 then skip else
+      let (nbrs', dirty) := recvPing s.t.nbrs (keyOf w) face (act == "1")
+      let s1 := { s with t := { s.t with nbrs := nbrs' } }
+      if dirty then
+        let (s2, cmds) := runFibUpdate s1
+        finish s2 cmds ["ping-face-change"]
+      else finish s1 [] ["ping-same-face"]
+    | _, _ => skip
+  | [advOp, w, items] =>
+    if advOp != "adv" && advOp != "advrace" then { st := .fib s, expected := some "bad-op", spec := fails } else
+    match w.toNat?, parseAdvItems s.n s.keys items with
+    | some w, some adv =>
+      if !(1 ≤ w && w < s.n) then skip else
+      match pget s.t.nbrs (keyOf w) with
+      | none => skip
+      | some _ =>
+        if advOp == "adv" then
+          let (rib', d) := C18.ribUpdate s.t.self s.t.rib (keyOf w) adv
+          let s1 := { s with t := { s.t with rib := rib' } }
+          if d then
+            let (s2, cmds) := runFibUpdate s1
+            finish s2 cmds ["adv-dirty"]
+          else finish s1 [] ["adv-clean"]
+        else
+          -- the neighbour dies before ribUpdate runs: ns.Advert is nil, ribUpdate returns
+          let (rib', d) := C18.ribDead s.t.rib (keyOf w)
+          let s1 := { s with t := { s.t with rib := rib', nbrs := perase s.t.nbrs (keyOf w) } }
+          if d then
+            let (s2, cmds) := runFibUpdate s1
+            finish s2 cmds ["advrace"]
+          else finish s1 [] ["advrace"]
+    | _, _ => skip
+  | ["dead", w] =>
+    match w.toNat? with
+    | some w =>
+      if !(1 ≤ w && w < s.n) then skip else
+      match pget s.t.nbrs (keyOf w) with
+      | none => skip
+      | some _ =>
+        let (rib', d) := C18.ribDead s.t.rib (keyOf w)
+        let s1 := { s with t := { s.t with rib := rib', nbrs := perase s.t.nbrs (keyOf w) } }
+        if d then
+          let (s2, cmds) := runFibUpdate s1
+          finish s2 cmds ["dead-dirty"]
+        else finish s1 [] ["dead-clean"]
+    | none => skip
+  | ["papply", x, reset, adds, rems] =>
+    match x.toNat? with
+    | some x =>
+      if !(x < s.n) then skip else
+      let (pfx', dirty) := pfxApply s.t.pfx (keyOf x) (reset == "1") (parseIds s.n adds) (parseIds s.n rems)
+      let s1 := { s with t := { s.t with pfx := pfx' } }
+      if dirty then
+        let (s2, cmds) := runFibUpdate s1
+        finish s2 cmds ["papply-dirty"]
+      else finish s1 [] ["papply-clean"]
+    | none => skip
+  | ["fib"] =>
+    let (s2, cmds) := runFibUpdate s
+    finish s2 cmds ["fib"]
+  | _ => skip
+
+def stepLog (s : LogSt) (f : List String) (got : String) : StepResult St :=
+  let skip : StepResult St := { st := .log s, expected := some "skip" }
+  let peerOf (b : String) : Option (Nat × Peer) :=
+    match b.toNat? with
+    | some b => if 1 ≤ b && b ≤ s.k then (s.peers[b - 1]?).map fun q => (b, q) else none
+    | none => none
+  match f with
+  | [op, id] =>
+    if op == "ann" || op == "wd" then
+      match id.toNat? with
+      | some id =>
+        if !(100 ≤ id && id < 100 + numApp) then skip else
+        let pub' := if op == "ann" then s.pub.announce id else s.pub.withdraw id
+        let s1 := if got == "skip" then s else specPubOp s (if op == "ann" then .announce id else .withdraw id)
+        let fails := if got == "skip" then [] else specPubCheck s1 got
+        { st := .log { s1 with pub := pub' }, expected := some (dumpPub pub'), spec := fails,
+          cov := [if pub'.seq == s.pub.seq then "pub-noop" else "pub-op"] ++ (if pub'.snapAt == pub'.seq && pub'.seq != s.pub.seq then ["pub-snapshot"] else []) }
+      | none => skip
+    else if op == "burst" then
+      match id.toNat? with
+      | some m =>
+        if m > 1000 then skip else
+        let pub' := burstM m 0 s.pub
+        let s1 := if got == "skip" then s else specBurst m 0 s
+        let fails := if got == "skip" then [] else specPubCheck s1 got
+        { st := .log { s1 with pub := pub' }, expected := some (dumpPub pub'), spec := fails, cov := ["burst"] }
+      | none => skip
+    else if op == "deliver" || op == "timeout" || op == "drain" then
+      match peerOf id with
+      | none => skip
+      | some (b, q) =>
+        let fails := if got == "skip" then [] else specPeerCheck s b (stripNoReply got)
+        if op == "deliver" then
+          match q.deliver s.pub with
+          | none => { skip with spec := fails }
+          | some (q', true) =>
+            { st := .log { s with peers := setPeer s.peers (b - 1) q' }, expected := some (dumpPeer q'), spec := fails,
+              cov := [match q.pend with | some .snap => "deliver-snapshot" | _ => "deliver-op"], nontrivial := true }
+          | some (q', false) =>
+            { st := .log s, expected := some ("noreply " ++ dumpPeer q'), spec := fails, cov := ["deliver-noreply"] }
+        else if op == "timeout" then
+          match q.timeout with
+          | none => { skip with spec := fails }
+          | some q' => { st := .log { s with peers := setPeer s.peers (b - 1) q' }, expected := some (dumpPeer q'), spec := fails, cov := ["timeout"] }
+        else
+          let (q', steps) := drainM 2000 q s.pub 0
+          { st := .log { s with peers := setPeer s.peers (b - 1) q' }, expected := some s!"{dumpPeer q'} steps={steps}", spec := fails,
+            cov := ["drain"] ++ (if steps ≥ 50 then ["drain-long"] else []), nontrivial := steps > 0 }
+    else skip
+  | ["sync", b, off] =>
+    match peerOf b, off.toNat? with
+    | some (b, q), some off =>
+      let high := if off < s.pub.seq.toNat then s.pub.seq - UInt64.ofNat off else s.pub.seq
+      let q' := q.sync high
+      let fails := if got == "skip" then [] else specPeerCheck s b got
+      { st := .log { s with peers := setPeer s.peers (b - 1) q' }, expected := some (dumpPeer q'), spec := fails,
+        cov := [match q'.pend, q.pend with
+                | some .snap, none => "sync-wants-snapshot"
+                | some (.seq _), none => "sync-wants-op"
+                | _, _ => "sync-no-fetch"] }
+    | _, _ => skip
+  | _ => skip
+
+def step (st : St) (op : String) (got : String) : StepResult St :=
+  let f := op.splitOn " "
+  match f with
+  | ["new", "fib", n] =>
+    match n.toNat?, got.splitOn " " with
+    | some n, "ok" :: ks =>
+      match ks.mapM String.toNat? with
+      | some keys =>
+        let okKeys := keys.length == n && keys.eraseDups.length == n && !keys.contains 0
+        let self := keys.getD 0 0
+        { st := .fib { n := n, keys := keys, fib := Fib.empty,
+                       t := { self := self, rib := (C18.Router.start self).rib, nbrs := [], pfx := [] } },
+          expected := none,
+          spec := if okKeys then [] else [⟨"A-hash", "keys", s!"router keys not distinct / zero / wrong count: {got}"⟩] }
+      | none => { st := .none, expected := some "ok <keys>" }
+    | _, _ => { st := .none, expected := some "ok <keys>" }
+  | ["new", "log", k] =>
+    match k.toNat?, got.splitOn " " with
+    | some k, ["ok", seq0] =>
+      match seq0.toNat? with
+      | some seq0 =>
+        { st := .log { k := k, pub := Pub.init (UInt64.ofNat seq0), peers := List.replicate k Peer.init,
+                       sSeq := seq0, hist := [(seq0, [])] }, expected := none }
+      | none => { st := .none, expected := some "ok <seq0>" }
+    | _, _ => { st := .none, expected := some "ok <seq0>" }
+  | "new" :: _ => { st := .none, expected := some "bad-op" }
+  | _ =>
+    match st with
+    | .none => { st := st, expected := some "skip" }
+    | .fib s =>
+      if ["ping", "adv", "advrace", "dead", "papply", "fib"].contains (f.headD "") then stepFib s f got
+      else
+        -- keep the spec replay meaningful even on an op the model does not know
+        { st := st, expected := some "skip" }
+    | .log s =>
+      if ["ann", "wd", "burst", "sync", "deliver", "timeout", "drain"].contains (f.headD "") then stepLog s f got
+      else { st := st, expected := some "skip" }
+
+end C19Drv
+
+def main : IO Unit := Ndn.Driver.run C19Drv.St.none C19Drv.step
